@@ -107,6 +107,10 @@ class MergeForLoops(RewritePattern):
         if lb != 0 or lb_parent != 0 or step != 1 or step_parent != 1:
             return
 
+        # a negative ub means no iterations, the product of two of them would mean some
+        if ub < 0 or ub_parent < 0:
+            return
+
         # the new ub of the parent op is ub * ub_parent
         new_parent_ub = ConstantOp.from_int_and_width(ub * ub_parent, IndexType())
         rewriter.insert_op(new_parent_ub, InsertPoint.before(parent))
